@@ -279,6 +279,14 @@ def g(x: uint256) -> uint256:
         "libs/avendor/utils.vy": "@internal\n@pure\ndef tag() -> uint256:\n    return 222\n",
         "libs/zvendor/helper.vy": "from . import utils\n\n@internal\n@pure\ndef h() -> uint256:\n    return utils.tag()\n",
         "main.vy": "import utils\nimport helper\n\n@external\ndef f() -> uint256:\n    return utils.tag() * 1000 + helper.h()\n"}},
+    # byte-identical wrapper modules in two packages whose RELATIVE import resolves to different files
+    "twin_packages": {"target": "main.vy", "files": {
+        "main.vy": "import pa.mod as ma\nimport pb.mod as mb\n\n@external\ndef fa() -> uint256:\n    return ma.get()\n\n"
+                   "@external\ndef fb() -> uint256:\n    return mb.get()\n",
+        "pa/mod.vy": "from . import helper\n\n@internal\ndef get() -> uint256:\n    return helper.value() + 1\n",
+        "pb/mod.vy": "from . import helper\n\n@internal\ndef get() -> uint256:\n    return helper.value() + 1\n",
+        "pa/helper.vy": "@internal\ndef value() -> uint256:\n    return 10\n",
+        "pb/helper.vy": "@internal\ndef value() -> uint256:\n    return 20\n"}},
     # re-entrancy lock: its location (transient vs storage slot 0) depends on the EVM target
     "locked": {"target": "locked.vy", "files": {"locked.vy": """
 # pragma nonreentrancy on
